@@ -184,6 +184,11 @@ M = {
     "x02_index_loop_skips_last": ("C02", [sub("src/cards/seven.rs", "        for perm in Seven::FIVE_CARD_PERMUTATIONS {\n            let hand = self.five_from_permutation(perm);", "        for i in 0..Seven::FIVE_CARD_PERMUTATIONS.len() - 1 {\n            let hand = self.five_from_permutation(Seven::FIVE_CARD_PERMUTATIONS[i]);")]),
     "x02_index_loop_le_zero": ("C02", [sub("src/cards/six.rs", "        for perm in Six::FIVE_CARD_PERMUTATIONS {\n            let hand = self.five_from_permutation(perm);\n            let hrv = hand.hand_rank_value();\n            if (best_hrv == 0) || hrv != 0 && hrv < best_hrv {",
                                            "        for i in 0..Six::FIVE_CARD_PERMUTATIONS.len() {\n            let hand = self.five_from_permutation(Six::FIVE_CARD_PERMUTATIONS[i]);\n            let hrv = hand.hand_rank_value();\n            if (best_hrv == 0) || hrv < best_hrv {")]),
+    "p05_gated_assert_false_for_deuces": ("C05", [sub(F5, "            return crate::hand_rank::NO_HAND_RANK_VALUE;\n        }\n        self.hand_rank_value()\n    }\n}", "            return crate::hand_rank::NO_HAND_RANK_VALUE;\n        }\n        debug_assert!(self.iter().all(|card| card.get_rank_prime() > 2));\n        self.hand_rank_value()\n    }\n}")]),
+    "p01_gated_assert_false_for_deuces": ("C01", [sub(F5, "            return crate::hand_rank::NO_HAND_RANK_VALUE;\n        }\n        self.hand_rank_value()\n    }\n}", "            return crate::hand_rank::NO_HAND_RANK_VALUE;\n        }\n        debug_assert!(self.iter().all(|card| card.get_rank_prime() > 2));\n        self.hand_rank_value()\n    }\n}")]),
+    "p05_ungated_assert_false_for_blank": ("C05", [sub(F5, "    fn hand_rank_value_validated(&self) -> HandRankValue {\n        if !self.is_valid() {", "    fn hand_rank_value_validated(&self) -> HandRankValue {\n        debug_assert!(self.iter().all(|card| card.get_rank_prime() > 1));\n        if !self.is_valid() {")]),
+    "p02_six_loop_assert": ("C02", [sub("src/cards/six.rs", "        let mut best_hrv: HandRankValue = 0u16;\n", "        let mut best_hrv: HandRankValue = 0u16;\n        assert!(self.0[5] != crate::CardNumber::DEUCE_CLUBS, \"x\");\n")]),
+    "p09_seven_loop_assert": ("C09", [sub("src/cards/seven.rs", "            let hrv = hand.hand_rank_value();\n", "            let hrv = hand.hand_rank_value();\n            debug_assert!(hrv != 1609, \"x\");\n")]),
     "p04_unique_any_consumes": ("C04", [sub("src/cards/seven.rs", "        let sorted = self.sort();\n        let mut last: CKCNumber = u32::MAX;\n        for c in sorted.iter() {\n            if *c >= last {\n                return false;\n            }\n            last = *c;\n        }\n        true", "        let mut rest = self.iter();\n        while let Some(card) = rest.next() {\n            if rest.any(|c| c == card) {\n                return false;\n            }\n        }\n        true")]),
 }
 
